@@ -1,0 +1,7 @@
+//go:build !windows && !verif
+
+package daemon
+
+// verifPause is a schedule point for the verification harness; without the
+// "verif" build tag it is an empty function the compiler inlines away.
+func verifPause() {}
